@@ -10,7 +10,7 @@ Content(len, r) == [i \in 1..len |-> (i * 7 + r * 13) % 256]
 HexCmd(what, chan, bytes) == Cmd("hex", what, NoAcct, <<>>, "", chan, [hex |-> BytesToHex(bytes)])
 NEnc == Len(Lens)
 \* encode -> decode session for every length
-EncAt(j) == SItem("roundtrip", "rt" \o ToString(j), HexCmd("encode", IF j % 2 = 0 THEN "file" ELSE "stdin", Content(Lens[j], j)), <<>>)
+EncAt(j) == SItem("roundtrip", "rt" \o ToString(j), HexCmd("encode", ChanNo(j), Content(Lens[j], j)), <<>>)
 DecAt(j, g) ==
   LET ref == [ref |-> g - 1, what |-> "stdout_hex"]
       c   == HexCmd("decode", "stdin", <<>>)
@@ -32,7 +32,7 @@ LayoutAt(j) ==
       laid  == Concat([i \in 1..Len(text) |->
                  (IF PrngNat(K("hw", <<j, i>>), 3) = 0 THEN <<Ws[1 + PrngNat(K("hx", <<j, i>>), Len(Ws))]>> ELSE <<>>) \o <<text[i]>>])
                \o (IF j % 2 = 0 THEN <<10>> ELSE <<>>)
-  IN  CItem("layout", HexCmd("decode", IF j % 2 = 0 THEN "file" ELSE "stdin", laid))
+  IN  CItem("layout", HexCmd("decode", ChanNo(j), laid))
 Malformed == <<
   <<48, 120, 97>>, <<97>>, <<48, 120, 97, 98, 99>>,                       \* odd number of digits
   <<103, 48>>, <<48, 120, 48, 103>>, <<48, 120, 97, 98, 122, 48>>,      \* non-hex first / last / middle
@@ -48,9 +48,9 @@ Malformed == <<
 UniWs == << <<194, 160>>, <<227, 128, 128>>, <<226, 128, 131>>, <<194, 133>>, <<226, 128, 168>>, <<11>> >>
 UniAt(j) ==
   LET w == UniWs[1 + ((j - 1) % Len(UniWs))]
-  IN  CItem("unicode_ws", HexCmd("decode", IF j % 2 = 0 THEN "file" ELSE "stdin",
+  IN  CItem("unicode_ws", HexCmd("decode", ChanNo(j),
                                  <<48>> \o (IF j > Len(UniWs) THEN w ELSE <<>>) \o <<120, 97>> \o w \o <<98, 70>> \o w \o <<102>> \o w))
-MalformedAt(j) == CItem("malformed", HexCmd("decode", IF j % 2 = 0 THEN "file" ELSE "stdin", Malformed[j]))
+MalformedAt(j) == CItem("malformed", HexCmd("decode", ChanNo(j), Malformed[j]))
 \* large malformed input: the fault lies far behind the beginning (nothing may be written before it is found)
 BigBadSizes == <<2047, 2048, 2049, 3000, 5000, 70000>>
 NBigBad == Len(BigBadSizes) * 3
@@ -61,18 +61,23 @@ BigBadAt(j) ==
       bad  == IF m = 0 THEN text \o <<55>>                                        \* a stray trailing digit
               ELSE IF m = 1 THEN [text EXCEPT ![Len(text)] = 103]                 \* the last digit is 'g'
               ELSE [text EXCEPT ![Len(text) - 100] = 122]                         \* a 'z' near the end
-  IN  CItem("big_malformed", HexCmd("decode", IF j % 2 = 0 THEN "file" ELSE "stdin", bad))
+  IN  CItem("big_malformed", HexCmd("decode", ChanNo(j), bad))
+\* hex encode of content with special prefixes / suffixes on every channel: 0x + two digits per byte, whatever the bytes
+NMagicItems == NMagicContents * (IF Thorough THEN 4 ELSE 1)
+MagicAt(j) == CItem("magic_content", HexCmd("encode", ChanNo(j + ((j - 1) \div NMagicContents)), MagicContent((j - 1) % NMagicContents)))
 O1 == 2 * NEnc
 O2 == O1 + NLayouts
 O3 == O2 + Len(Malformed)
 O4 == O3 + NBigBad
-Count == O4 + 2 * Len(UniWs)
+O5 == O4 + 2 * Len(UniWs)
+Count == O5 + NMagicItems
 ItemAt(g) ==
   IF g <= O1 THEN (IF g % 2 = 1 THEN EncAt((g + 1) \div 2) ELSE DecAt(g \div 2, g))
   ELSE IF g <= O2 THEN LayoutAt(g - O1)
   ELSE IF g <= O3 THEN MalformedAt(g - O2)
   ELSE IF g <= O4 THEN BigBadAt(g - O3)
-  ELSE UniAt(g - O4)
+  ELSE IF g <= O5 THEN UniAt(g - O4)
+  ELSE MagicAt(g - O5)
 VARIABLE n
 INSTANCE GenBase
 =============================================================================
